@@ -236,6 +236,7 @@ class AL(AList):
         self.cache = {}
         self._cnt = None
         self.frozen_input = False
+        self.bag_of = None
         self.distinct = False    # no two present positions hold equal elements (known by construction)
         self.members = None      # lists whose elements, as a set, are exactly this list's elements (order/multiplicity-insensitive queries)
         self.len_of = None       # thunk -> z3 Int: the length, when it is known without a positional view
@@ -251,6 +252,7 @@ class AL(AList):
         self.members, self.len_of, self._lazy, self._dense = members, len_of, materialise, dense
         # views of ONE list (sorted / permuted / positional) keep the property "no two positions hold equal elements"
         self.distinct = len(members) == 1 and getattr(members[0], 'distinct', False)
+        self.bag_of = None       # a list with the same elements and multiplicities (this one is a reordering / positional view of it)
         return self
 
     def __getattr__(self, name):
@@ -344,6 +346,18 @@ class AL(AList):
         offending index."""
         if self.void:
             return AL(z3.IntVal(0), fresh_index('g'), True, None, origin)
+        if self.bag_of is not None and self.__dict__.get('_lazy') is not None:
+            # a comprehension over a reordering of another list: as a bag it is the comprehension over that list; its positional
+            # structure (through the permutation) is only built if an element is indexed
+            inner = self.bag_of.mapfilter(fn, origin)
+            out = AL.derived(origin + ' over ' + self.origin, [inner], inner.len_term, lambda: self._mapfilter_positional(fn, origin), dense=None)
+            out.bag_of = inner
+            return out
+        return self._mapfilter_positional(fn, origin)
+
+    def _mapfilter_positional(self, fn, origin='comprehension'):
+        if self.void:
+            return AL(z3.IntVal(0), fresh_index('g'), True, None, origin)
         k = fresh_index('g')
         p, x = self.get(k)
         guards = self.guards(k)
@@ -385,6 +399,7 @@ class AL(AList):
         if self.__dict__.get('_pos') is not None:
             return self._pos
         self._pos = AL.derived(self.origin + ' (positional)', [self], self.len_term, self._positional_now)
+        self._pos.bag_of = self
         return self._pos
 
     def _positional_now(self):
@@ -402,7 +417,9 @@ class AL(AList):
 
     def permuted(self, why):
         """Dense list with the same elements in an order given by a fresh permutation (no order facts)."""
-        return AL.derived(why, [self], self.len_term, lambda: self._permuted_now(why))
+        out = AL.derived(why, [self], self.len_term, lambda: self._permuted_now(why))
+        out.bag_of = self
+        return out
 
     def _permuted_now(self, why):
         src = self.positional()
@@ -789,7 +806,14 @@ def comprehension(interp, src, g, e, env, mod, kind):
 
 
 def bigsum(it, start=0):
+    it = force(it)
     al = as_al(it)
+    if isinstance(it, ASet):
+        al = al.first_occurrences()      # a set holds every value once
+    while al.bag_of is not None:      # a sum does not depend on the order of its terms
+        al = al.bag_of
+    if al.void:
+        return start
     k = al.kvar
     v = al.value
     if v is None:
@@ -828,7 +852,7 @@ def extensionality_facts(solve):
     facts = []
     for a_i, A in enumerate(BIGSUMS):
         for B in BIGSUMS[a_i + 1:]:
-            if A['generic'] or B['generic'] or not z3.simplify(A['n'] == B['n']).eq(z3.BoolVal(True)) and not A['n'].eq(B['n']):
+            if A['generic'] or B['generic'] or not A['n'].eq(B['n']):
                 continue
             for part in ('re', 'im'):
                 (sa, ta), (sb, tb) = A[part], B[part]
@@ -850,7 +874,9 @@ def sorted_(it, key=None, reverse=False):
     strict = key is None and al.distinct      # distinct elements: the order is strict (a fact the solver would need induction for)
     if al.void:
         return AL(z3.IntVal(0), fresh_index('g'), True, None, 'sorted')
-    return AL.derived('sorted', [al], al.len_term, lambda: _sorted_now(al, key, reverse, strict))
+    out = AL.derived('sorted', [al], al.len_term, lambda: _sorted_now(al, key, reverse, strict))
+    out.bag_of = al
+    return out
 
 
 def _sorted_now(al, key, reverse, strict):
@@ -907,7 +933,15 @@ def enumerate_(it, start=0):
 
 
 def zip_(its):
-    raise OutOfSubset('zip over abstract sequences')
+    als = [as_al(i).positional() for i in its]
+    if any(a.void for a in als):
+        return AL(z3.IntVal(0), fresh_index('g'), True, None, 'zip')
+    g = fresh_index('g')
+    n = als[0].n
+    for a in als[1:]:
+        if not a.n.eq(n):
+            n = z3.If(a.n < n, a.n, n)
+    return AL(z3.simplify(n), g, True, tuple(a.get(g)[1] for a in als), 'zip')
 
 
 def product_(its, rep):
@@ -951,3 +985,188 @@ def reset():
     del GENERIC[:]
     del FRAME_NOTES[:]
     del BIGSUMS[:]
+
+
+# ------------------------------------------------------------------------------------------------
+# for-loops over abstract sequences whose body only feeds local accumulators (the statement form of a comprehension)
+
+
+def _reachable_state(roots, limit=5):
+    """Identity snapshot of the mutable containers reachable from `roots`: {id: (object, tuple of child ids)}."""
+    from .arrays import AArr
+    seen = {}
+
+    def walk(v, depth):
+        if depth > limit or id(v) in seen:
+            return
+        if isinstance(v, list):
+            seen[id(v)] = (v, tuple(id(x) for x in v))
+            kids = list(v)
+        elif isinstance(v, IDict):
+            seen[id(v)] = (v, tuple((id(k), id(x)) for k, x in v.items_))
+            kids = [x for _, x in v.items_]
+        elif isinstance(v, ISet):
+            seen[id(v)] = (v, tuple(id(x) for x in v.elems))
+            kids = list(v.elems)
+        elif isinstance(v, Inst):
+            seen[id(v)] = (v, tuple((k, id(x)) for k, x in v.attrs.items()))
+            kids = list(v.attrs.values())
+        elif isinstance(v, AArr):
+            seen[id(v)] = (v, tuple(id(x) for x in v.data))
+            kids = []
+        elif isinstance(v, tuple):
+            kids = list(v)
+        else:
+            return
+        for x in kids:
+            walk(x, depth + 1)
+    for r in roots:
+        walk(r, 0)
+    return seen
+
+
+def _local_envs(env):
+    out = []
+    e = env
+    while e is not None and e is not e.globals_:
+        out.append(e)
+        e = e.parent
+    return out
+
+
+POISON = Opaque('variable assigned inside a loop over an abstract sequence (its value after the loop is not modelled)')
+
+
+def for_loop(interp, s, src, env, mod):
+    from .interp import _Break, _Continue
+    if s.orelse:
+        raise OutOfSubset('for/else over an abstract sequence')
+    src = force(src)
+    al = as_al(src)
+    if isinstance(src, ASet):
+        al = al.first_occurrences().permuted('iteration over a set')
+    if al.void:
+        return
+    envs = _local_envs(env)
+    bindings = [dict(e.vars) for e in envs]
+    roots = [v for b in bindings for v in b.values()]
+    accs = []          # mutable containers bound directly to local names
+    for b in bindings:
+        for v in b.values():
+            if isinstance(v, (list, IDict, ISet)) and not any(v is a for a in accs):
+                accs.append(v)
+
+    def content(a):
+        return list(a) if isinstance(a, list) else (list(a.items_) if isinstance(a, IDict) else list(a.elems))
+
+    def restore(a, c):
+        if isinstance(a, list):
+            a[:] = c
+        elif isinstance(a, IDict):
+            a.items_ = list(c)
+        else:
+            a.elems = list(c)
+    saved = [content(a) for a in accs]
+    before = _reachable_state(roots)
+    target_names = {n.id for n in __import__('ast').walk(s.target) if isinstance(n, __import__('ast').Name)}
+
+    k = fresh_index('g')
+    p, x = al.get(k)
+    guards = al.guards(k)
+    new_names = set()
+
+    def body():
+        for a, c in zip(accs, saved):
+            restore(a, c)
+        for e, b in zip(envs, bindings):
+            e.vars.clear()
+            e.vars.update(b)
+        interp.assign(s.target, x, env, mod)
+        try:
+            interp.exec_block(s.body, env, mod)
+        except _Continue:
+            pass
+        except _Break:
+            raise OutOfSubset('break in a loop over an abstract sequence')
+        deltas = []
+        for a, c in zip(accs, saved):
+            now = content(a)
+            if isinstance(a, list):
+                if len(now) < len(c) or any(u is not v for u, v in zip(now, c)):
+                    raise OutOfSubset('loop over an abstract sequence changes existing items of a list')
+                deltas.append(tuple(now[len(c):]))
+            elif isinstance(a, IDict):
+                old = {id(kk): vv for kk, vv in c}
+                stores = tuple((kk, vv) for kk, vv in now if id(kk) not in old or old[id(kk)] is not vv)
+                if len(now) - len(stores) != len([1 for kk, vv in c if any(kk is k2 and vv is v2 for k2, v2 in now)]):
+                    raise OutOfSubset('loop over an abstract sequence removes dictionary items')
+                deltas.append(stores)
+            else:
+                if any(u is not v for u, v in zip(now, c)) or len(now) < len(c):
+                    raise OutOfSubset('loop over an abstract sequence removes set elements')
+                deltas.append(tuple(now[len(c):]))
+            restore(a, c)
+        after = _reachable_state(roots)
+        for i, (obj, kids) in before.items():
+            if i in after and after[i][1] != kids:
+                raise OutOfSubset('loop over an abstract sequence mutates an object other than a local list / dict / set accumulator')
+        for e, b in zip(envs, bindings):
+            for name, v in e.vars.items():
+                if name in target_names:
+                    continue
+                if name not in b:
+                    new_names.add((id(e), name))
+                elif b[name] is not v:
+                    raise OutOfSubset(f'loop over an abstract sequence rebinds the variable {name!r} (loop-carried state)')
+        return tuple(deltas)
+    try:
+        outs = generic_eval(k, guards, body)
+    finally:
+        for a, c in zip(accs, saved):
+            restore(a, c)
+        for e, b in zip(envs, bindings):
+            e.vars.clear()
+            e.vars.update(b)
+    excs = [(c, v) for c, kind, v in outs if kind == 'exc']
+    rets = [(c, v) for c, kind, v in outs if kind == 'ret']
+    if excs:
+        al._raise_first(k, guards, excs)
+    for e in envs:
+        for ide, name in new_names:
+            if ide == id(e):
+                e.vars[name] = POISON
+        for name in target_names:
+            if name in e.vars or e is env:
+                pass
+    for name in target_names:
+        env.vars[name] = POISON
+    for ai, (a, c) in enumerate(zip(accs, saved)):
+        per = [(cnd, d[ai]) for cnd, d in rets]
+        if all(len(d) == 0 for _, d in per):
+            continue
+        if any(len(d) > 1 for _, d in per):
+            raise OutOfSubset('more than one append/store per iteration in a loop over an abstract sequence')
+        hits = [(cnd, d[0]) for cnd, d in per if len(d) == 1]
+        present = z3.And(p, z3.Or(*[cnd for cnd, _ in hits])) if len(hits) < len(per) else p
+        added = AL(al.n, k, present, merged(hits), 'loop accumulator')
+        if present is p and not al.dense:
+            added.len_of = al.len_term
+        if isinstance(a, list):
+            new = concat(from_concrete(c), added) if c else added
+        elif isinstance(a, IDict):
+            new = ADict(concat(from_concrete([(kk, vv) for kk, vv in c]), added) if c else added)
+        else:
+            new = ASet(concat(from_concrete(c), added) if c else added)
+        _rebind(a, new, envs, roots)
+
+
+def _rebind(old, new, envs, roots):
+    for e in envs:
+        for name, v in list(e.vars.items()):
+            if v is old:
+                e.vars[name] = new
+    for r in roots:
+        if isinstance(r, Inst):
+            for name, v in list(r.attrs.items()):
+                if v is old:
+                    r.attrs[name] = new
